@@ -9,6 +9,7 @@ import (
 	"net/http"
 	"net/http/httptest"
 	"net/url"
+	"os"
 	"sort"
 	"strings"
 
@@ -495,6 +496,7 @@ func c07Long(c c07Case, st *fw.Stats) []fw.Viol {
 // the plain one (and the other way round); (b) unmatched long requests next to cached long ones; (c) pairs of keys that
 // collide under the common 32-bit string hashes, requested A, B, A, B.
 func c07Special(st *fw.Stats, add func(sig, msg string)) {
+	var extra func(r *rux.Router) // registrations made on both routers after the table (nil = none)
 	run := func(what string, defs []refmodel.RouteDef, opts func(bool) []func(*rux.Router), reqs [][3]string) {
 		recC, recT := &hitRec{}, &hitRec{}
 		via := make([]string, len(defs))
@@ -506,6 +508,12 @@ func c07Special(st *fw.Stats, add func(sig, msg string)) {
 		if pv1 != nil || pv2 != nil {
 			add("register:panic", fmt.Sprintf("%s: registration panicked: %v %v", what, pv1, pv2))
 			return
+		}
+		if extra != nil {
+			if pv := try(func() { extra(rc); extra(rt) }); pv != nil {
+				add("register:panic", fmt.Sprintf("%s: registration panicked: %v", what, pv))
+				return
+			}
 		}
 		obs := func(r *rux.Router, rec *hitRec, q [3]string) string {
 			rec.n, rec.idx, rec.params = 0, -1, ""
@@ -599,6 +607,22 @@ func c07Special(st *fw.Stats, add func(sig, msg string)) {
 			run("routes n0 = GET /users/{id:\\d+}, n1 = GET+POST /users/{name}, n2 = GET /{any}/{thing}; URLs built with BuildURL between the requests", named, o, seq)
 		}
 	}
+	// (g) a static-directory mount registered after dynamic routes that overlap it
+	extra = func(r *rux.Router) {
+		r.StaticDir("/files", os.TempDir())
+		r.StaticFiles("/assets", os.TempDir(), "css|js")
+	}
+	mountDefs := []refmodel.RouteDef{{Path: `/files/{id:\d+}`, Methods: []string{"GET"}}, {Path: "/assets/{name}", Methods: []string{"GET", "POST"}}, {Path: "/files/{a}/{b}", Methods: []string{"GET"}}}
+	for _, seq := range [][][3]string{
+		{{"GET", "/files/no-such-file.txt", ""}, {"GET", "/files/42", ""}, {"GET", "/files/no-such-file.txt", ""}, {"GET", "/files/42", ""}},
+		{{"GET", "/files/42", ""}, {"GET", "/files/no-such-file.txt", ""}, {"GET", "/files/42", ""}, {"GET", "/files/x/y", ""}},
+		{{"GET", "/assets/no-such.css", ""}, {"GET", "/assets/logo", ""}, {"POST", "/assets/no-such.css", ""}, {"GET", "/assets/no-such.css", ""}},
+	} {
+		for _, o := range []func(bool) []func(*rux.Router){plainOpts, naOpts} {
+			run("routes GET /files/{id:\\d+}, GET+POST /assets/{name}, GET /files/{a}/{b}, then StaticDir(/files) and StaticFiles(/assets, css|js) on the temp directory (no such files exist there)", mountDefs, o, seq)
+		}
+	}
+	extra = nil
 	// (f) rux's debug mode (tracing output) must not make a cached answer differ from an uncached one
 	func() {
 		chainDebugMu.Lock()
@@ -711,7 +735,7 @@ var c07Spec = fw.Spec[c07Case]{
 	Level:      "model_checking",
 	StateGraph: true,
 	Rule: "explicit-state search to fix-point per configuration (13 route tables x {HandleMethodNotAllowed} x {HandleFallbackRoute} x {StrictLastSlash} x capacities 0..3(4)): state = cache content in recency order with route and params per entry (verif hook); " +
-		"all histories of length <=2 (thorough 3) without state merging, then every reachable state x every request of the alphabet (13 / 16 requests: hits, misses, evictions, HEAD->GET, 405 probes, fallback, 404) executed on the real caching router via Match and ServeHTTP and compared with the non-caching twin; for capacity 2 also next to a sibling router built from the very same option values; for capacity 2 (thorough 1 and 3) the graph is explored again with the registration of the table's last route as one more action, enabled once at any point; plus plain / percent-encoded URL sequences under UseEncodedPath, matched and unmatched paths of 230..290 bytes with HandleMethodNotAllowed, pairs of cache keys that collide under six common 32-bit string hashes, requests with 9 method strings outside the supported nine right after the path was cached for GET / POST / OPTIONS, URLs of named routes built with BuildURL between the requests, repeated requests while rux's debug mode is on, and pairs of request paths of every length 10..309 bytes that differ only in their last 1-3 bytes, requested alternately under four methods; non-trivial = newly reached distinct cache state",
+		"all histories of length <=2 (thorough 3) without state merging, then every reachable state x every request of the alphabet (13 / 16 requests: hits, misses, evictions, HEAD->GET, 405 probes, fallback, 404) executed on the real caching router via Match and ServeHTTP and compared with the non-caching twin; for capacity 2 also next to a sibling router built from the very same option values; for capacity 2 (thorough 1 and 3) the graph is explored again with the registration of the table's last route as one more action, enabled once at any point; plus plain / percent-encoded URL sequences under UseEncodedPath, matched and unmatched paths of 230..290 bytes with HandleMethodNotAllowed, pairs of cache keys that collide under six common 32-bit string hashes, requests with 9 method strings outside the supported nine right after the path was cached for GET / POST / OPTIONS, URLs of named routes built with BuildURL between the requests, repeated requests while rux's debug mode is on, static mounts registered after dynamic routes that overlap them, and pairs of request paths of every length 10..309 bytes that differ only in their last 1-3 bytes, requested alternately under four methods; non-trivial = newly reached distinct cache state",
 	Assume: []string{
 		"canonical state = cache content only: tables and options are frozen after registration and contexts are reset per request (C10)",
 		"successor = replay of the shortest history on a fresh router plus one request",
